@@ -12,9 +12,9 @@ NearJ(x, y) == \E a \in {x[2], x[3]}, b \in {y[2], y[3]} : <<a, b>> \in NearSite
 JumpSet == {<<a, ss, ds, s, e>> \in (0..(NAt - 1)) \X (0..(NS - 1)) \X (0..(NS - 1)) \X (0..MaxT) \X (0..MaxT) : s < e /\ ss # ds}
 VARIABLE tbl
 Init == tbl = <<>>
-(* tables are multisets for both definitions (OrderFree), so they are generated in canonical non-decreasing order *)
-RowLeq(x, y) == \/ x = y
-                \/ \E k \in 1..5 : x[k] < y[k] /\ \A i \in 1..(k - 1) : x[i] = y[i]
+(* tables are multisets for both definitions (OrderFree), so they are generated in canonical increasing order *)
+(* strictly increasing: a jump table never contains the same row (atom, sites, times) twice *)
+RowLeq(x, y) == \E k \in 1..5 : x[k] < y[k] /\ \A i \in 1..(k - 1) : x[i] = y[i]
 Add == Len(tbl) < MaxJ /\ \E j \in JumpSet : (IF Len(tbl) = 0 THEN TRUE ELSE RowLeq(tbl[Len(tbl)], j)) /\ tbl' = Append(tbl, j)
 Spec == Init /\ [][Add]_tbl
 ScanIsDecl == CodePairs(tbl, Window, NearJ, UseBreak) = DeclPairs(tbl, Window, NearJ)
